@@ -134,9 +134,11 @@ class AppLog:
     def _exc(self, event):
         name = self.fault_exc[event].pop(0) if self.fault_exc[event] else 'RuntimeError'
         return {'RuntimeError': RuntimeError, 'TypeError': TypeError, 'KeyError': KeyError,
-                'ValueError': ValueError, 'OSError': OSError}.get(name, RuntimeError)
+                'ValueError': ValueError, 'OSError': OSError,
+                # what `task.cancel(); await task` in a handler's clean-up raises
+                'CancelledError': asyncio.CancelledError}.get(name, RuntimeError)
 
-    def install(self, server, coroutine_handlers, legacy_disconnect=False, sleep=None):
+    def install(self, server, coroutine_handlers, legacy_disconnect=False, sleep=None, style=None):
         """legacy_disconnect: register the documented one-argument disconnect handler; the reason
         is then not visible to the log (recorded as None).  sleep: blocking sleep of the world
         (threaded world) used for handler delays."""
@@ -265,6 +267,20 @@ class AppLog:
                         return self._disconnect(sid, reason)
                     finally:
                         nap('disconnect')
+        # handlers need not be plain functions: functools.partial objects and (for synchronous
+        # handlers) instances with __call__ are callables without __name__ / __qualname__
+        if style == 'partial':
+            import functools
+            connect, message, disconnect = (functools.partial(f)
+                                            for f in (connect, message, disconnect))
+        elif style == 'object' and not coroutine_handlers:
+            class Handler:
+                def __init__(self, f):
+                    self.f = f
+
+                def __call__(self, *args):
+                    return self.f(*args)
+            connect, message, disconnect = Handler(connect), Handler(message), Handler(disconnect)
         server.on('connect', connect)
         server.on('message', message)
         server.on('disconnect', disconnect)
@@ -275,7 +291,7 @@ class AWorld:
 
     def __init__(self, config=None, coroutine_handlers=True, app_kwargs=None, raise_after_close=True,
                  legacy_disconnect=False, clock=None, loop=None, handler_delay=None,
-                 preempt=False, timer_jitter=0.0):      # (preempt: threaded world only)
+                 preempt=False, timer_jitter=0.0, handler_style=None):      # (preempt: threaded world only)
         import engineio
         self.clock = clock or vclock.reset()
         vclock.patch_engineio_time()
@@ -288,7 +304,7 @@ class AWorld:
         self.server = engineio.AsyncServer(async_mode='asgi', **cfg)
         self.app_log = AppLog(self)
         self.app_log.delay = dict(handler_delay or {})
-        self.app_log.install(self.server, coroutine_handlers, legacy_disconnect)
+        self.app_log.install(self.server, coroutine_handlers, legacy_disconnect, style=handler_style)
         self.app = engineio.ASGIApp(self.server, **(app_kwargs or {}))
         self.raise_after_close = raise_after_close
         self.reqs, self.conns, self.calls = [], [], []
